@@ -296,11 +296,40 @@ fn catalogue() -> Vec<(Case, bool)> {
     out
 }
 
+// Names after a loop that was left early: what the body (or a block inside
+// it) declared is gone, what the enclosing scope declared is still declared
+// once. Loop kind x where the inner declaration sits x way of leaving x the
+// event afterwards x where the whole thing stands.
+fn after_loop_cases(ctx: &Ctx) -> Vec<(Case, bool)> {
+    let loops = ["for [_, v] in [1, 2, 3] {", "i := 0\nwhile i < 3 {\n    i += 1", "for [k, v] in {\"p\": 1, \"q\": 2} {"];
+    // (opening lines, closing lines) around `y := ...` and the jump
+    let nests = [("", ""), ("if true {\n", "}\n"), ("{\n", "}\n"), ("if true {\n{\n", "}\n}\n"), ("for [_, w] in [0] {\n", "}\n")];
+    let leaves = ["break", "continue", "print(\"turn\")"];
+    let afters = ["print(y)", "y := 5\nprint(y)", "x := 6\nprint(x)", "y = 7", "print(x)", "x += 1\nprint(x)", "fn y() {\n    return 8\n}\nprint(y())", "[x, y] := [1, 2]", "{\n    print(y)\n}", "fn peek() {\n    return y\n}\nprint(peek())"];
+    let hosts = [("", ""), ("fn host() {\n", "}\nhost()\n"), ("{\n", "}\n"), ("if true {\n", "}\n")];
+    let mut srcs = vec![];
+    for lp in loops {
+        for (no, nc) in nests {
+            for leave in leaves {
+                // Leaving an inner `for` by break only leaves that one.
+                for after in afters {
+                    for (ho, hc) in hosts {
+                        let src = format!("{ho}x := 1\n{lp}\n{no}y := 2\nx := 3\nprint([x, y])\n{leave}\n{nc}}}\n{after}\nprint(\"end\")\n{hc}");
+                        srcs.push((src, format!("`{}` body left by `{leave}` inside `{}`; then `{}`", lp.lines().last().unwrap_or(""), no.replace('\n', " "), after.lines().next().unwrap_or(""))));
+                    }
+                }
+            }
+        }
+    }
+    source_cases(ctx, "C20", "after_loop", "names after a loop left by break / continue", srcs)
+}
+
 pub fn run(ctx: &Ctx) {
-    ctx.set_rule("all event sequences of length <= 4 (quick: length 4 sampled 1:2; thorough: length 5 complete) over 20 events on the names x, y, _: declare, assign, op-assign, read, list / object destructure as declaration and assignment, fn declaration, block / if / for-target / parameter scopes opened and closed (nested), _ as declaration / twice in a pattern / read / object collect; 20 expression kinds (13 non-bindable, 7 bindable) x 10 binding positions; a catalogue for _ and for cited positions; oracle: reference interpreter on stdout and outcome, Undefined reported at the name, a redeclaration citing the earlier declaration's line:col; the earlier declaration at lines up to 5000 and columns up to 4100 (cited position must be exact). Non-trivial = the sequence has a scope event, an underscore, ends in an undefined-name / redeclaration error, or distinguishes {assignment declares, declaration assigns outer, no block scope}; distinct = distinct source texts");
+    ctx.set_rule("all event sequences of length <= 4 (quick: length 4 sampled 1:2; thorough: length 5 complete) over 20 events on the names x, y, _: declare, assign, op-assign, read, list / object destructure as declaration and assignment, fn declaration, block / if / for-target / parameter scopes opened and closed (nested), _ as declaration / twice in a pattern / read / object collect; 20 expression kinds (13 non-bindable, 7 bindable) x 10 binding positions; a catalogue for _ and for cited positions; oracle: reference interpreter on stdout and outcome, Undefined reported at the name, a redeclaration citing the earlier declaration's line:col; the earlier declaration at lines up to 5000 and columns up to 4100 (cited position must be exact). names after a loop left early: 3 loop kinds x 5 places of the inner declarations (body, if, block, if + block, inner for) x {break, continue, runs on} x 10 events afterwards (read / declare / assign / redeclare / fn / pattern / closure over the inner and the outer name) x 4 hosts (top level, function, block, if), reference run. Non-trivial = the sequence has a scope event, an underscore, ends in an undefined-name / redeclaration error, or distinguishes {assignment declares, declaration assigns outer, no block scope}; distinct = distinct source texts");
     ctx.replay_corpus(None);
     ctx.judge_all(catalogue(), Via::Cli, None);
     ctx.judge_all(non_bindable(ctx), Via::Cli, None);
+    ctx.judge_all(after_loop_cases(ctx), Via::Cli, None);
     for len in 1..=3 {
         enumerate(ctx, len, 1);
     }
